@@ -1,5 +1,5 @@
 (* C10 - Repetition counts are exact and a third occurrence is scored as a draw. *)
-From Walleye Require Import Model.Search Proofs.DrawTableProofs Proofs.SearchBasics.
+From Walleye Require Import Model.Search Proofs.DrawTableProofs Proofs.SearchBasics Proofs.TableRestored Proofs.RootDraw.
 Open Scope Z_scope.
 
 (* after `position ... moves ...` the record holds, for every key, the number of positions of the
@@ -25,6 +25,16 @@ Theorem C10_draw_value : forall zt osort k f b d ply a be n s,
   exists s', alpha_beta zt osort k (S f) b d ply a be n s = Ok (0, s') /\ table s' = table s.
 Proof. exact draw_at_node_entry. Qed.
 
+(* whenever the side to move has a move into a position that already occurred at least twice, the last score the
+   unlimited search reports for each depth is not below zero (under an allowance the reports are a prefix of
+   these, C07_prefix) -- for every ordering oracle that returns the elements it was given *)
+Theorem C10_final_score_not_below_zero : forall zt osort fuel b t evs s,
+  (forall n l x, In x l -> In x (osort n l)) ->
+  dt_nonneg t -> (exists m, In m (generate_moves zt b AllMoves) /\ 2 <= dt_count t (zobrist_key m)) ->
+  get_best_move zt osort None (S fuel) b t = Ok (evs, s) ->
+  forall d e, newest_info d (rev evs) = Some e -> 0 <= e.
+Proof. intros zt osort fuel b t evs s HO. exact (root_scores_nonneg zt osort HO fuel b t evs s). Qed.
+
 (* add then remove leaves every count as it was *)
 Theorem C10_add_remove_restores : forall t s k, dt_count (dt_remove (dt_add t s) s) k = dt_count t k.
 Proof. exact dt_count_remove_add. Qed.
@@ -37,4 +47,5 @@ Check C10_threefold_iff : forall t s, is_threefold_repetition t s = true <-> 2 <
 Print Assumptions C10_counts_exact.
 Print Assumptions C10_threefold_iff.
 Print Assumptions C10_draw_value.
+Print Assumptions C10_final_score_not_below_zero.
 Print Assumptions C10_add_remove_restores.
